@@ -90,6 +90,7 @@ ListRes(fs, out) == IF out = <<>> THEN Res(fs, "suppress", <<>>) ELSE Res(fs, "l
 (***************************************************************************)
 RetractCmds(lr, eAxis, dir) ==
     IF lr.fw THEN << FwCmd(IF dir = 1 THEN "G10" ELSE "G11", lr.ptxt) >>
+    ELSE IF ~eAxis.abs THEN << G1FE(lr.feed, -(lr.amt * dir)) >>     \* relative extruder mode
     ELSE << G92E(Logical(eAxis) + lr.amt * dir), G1FE(lr.feed, Logical(eAxis)) >>
 
 (***************************************************************************)
